@@ -516,3 +516,45 @@ def interleave_blocks(rng, blocks, max_chunk=3):
             rows.append(np.concatenate(([l], r)))
         cursors[l] += k
     return np.array(rows)
+
+
+# ----------------------------------------------------------------------------- ill-conditioned opaque chains
+
+def rounding_noise_of(case, fn, ref):
+    """how far rounding-level changes of the data (relative / absolute 1e-15 and 1e-14, a few units in the last place) move
+    the implementation's OWN output `fn(X)` (reference value `ref`), in the measure of the value comparison (relative to
+    max(1, |value|)).  A wrapped third-party stage fitted on a handful of nearly repeated samples (Nystroem normalisation
+    with entries ~1e6) amplifies rounding far beyond the comparison tolerance; the model evaluates the same fitted
+    map row by row and legitimately differs by that much."""
+    worst = 0.0
+    try:
+        X = np.array(X_of(case), dtype=float)
+        ep = 1 if case['ep'] else 0
+        for eps in (1e-15, -1e-15, 1e-14, -1e-14):
+            Z = X.copy(order='K')
+            Z[:, ep:] = Z[:, ep:] * (1 + eps) + eps
+            out = np.asarray(fn(Z), dtype=float)
+            if out.shape != np.shape(ref):
+                return 0.0
+            d = np.abs(out - ref) / np.maximum(1.0, np.abs(ref))
+            d = d[np.isfinite(d)]
+            if d.size:
+                worst = max(worst, float(d.max()))
+    except Exception:
+        return 0.0
+    return worst
+
+
+def compare_values_guarded(A, reply, case, cells, reg, fn, count=None, cols=None, rtol=1e-9):
+    """compare_values; when it reports a mismatch and the implementation's own output moves by more than 1e-11 under
+    rounding-level changes of the data, the values are compared again at 100 x that measured noise (never below `rtol`,
+    never above 1e-5).  Shapes, labels and exact (integer) cells are not affected."""
+    why = compare_values(A, reply, case, cells, reg, cols=cols, rtol=rtol)
+    if not why or cells is None:          # exact (integer) mode: nothing to relax
+        return why
+    noise = rounding_noise_of(case, fn, np.asarray(A, dtype=float))
+    if noise <= 1e-11:
+        return why
+    if count is not None:
+        count('values compared at 100 x the measured rounding noise of the lifting')
+    return compare_values(A, reply, case, cells, reg, cols=cols, rtol=min(1e-5, max(rtol, 100 * noise)))
